@@ -35,7 +35,67 @@ var (
 	selrev  = flag.Bool("selrev", false, "try select clauses in reverse textual order")
 	noshim  = flag.Bool("noshim", false, "do not rewrite imports/selects (race build): only drop tests and add harness")
 	harness = flag.String("harness", "harness", "harness directory under verif")
+	// blockcov: diagnostic build that records which blocks of the library the checks execute
+	// (tools/covreport.py); never used by the registered commands
+	blockcov = flag.Bool("blockcov", false, "insert a coverage probe at the start of every block")
 )
+
+type covSite struct {
+	ID   int    `json:"id"`
+	File string `json:"file"`
+	Line int    `json:"line"`
+	Kind string `json:"kind"`
+	Func string `json:"func"`
+}
+
+var covSites []covSite
+
+// addBlockCov prepends vverifsched.Cov(id) to every function body, branch body and case
+// clause of f.
+func addBlockCov(fset *token.FileSet, f *ast.File, name string) bool {
+	probe := func(pos token.Pos, kind, fn string) ast.Stmt {
+		id := len(covSites)
+		covSites = append(covSites, covSite{ID: id, File: name, Line: fset.Position(pos).Line, Kind: kind, Func: fn})
+		return &ast.ExprStmt{X: &ast.CallExpr{Fun: &ast.SelectorExpr{X: ast.NewIdent("vverifsched"), Sel: ast.NewIdent("Cov")},
+			Args: []ast.Expr{&ast.BasicLit{Kind: token.INT, Value: strconv.Itoa(id)}}}}
+	}
+	changed := false
+	for _, d := range f.Decls {
+		fd, ok := d.(*ast.FuncDecl)
+		if !ok || fd.Body == nil {
+			continue
+		}
+		fn := fd.Name.Name
+		if fd.Recv != nil && len(fd.Recv.List) == 1 {
+			var b bytes.Buffer
+			_ = printer.Fprint(&b, fset, fd.Recv.List[0].Type)
+			fn = "(" + b.String() + ")." + fn
+		}
+		fd.Body.List = append([]ast.Stmt{probe(fd.Body.Lbrace, "func", fn)}, fd.Body.List...)
+		changed = true
+		ast.Inspect(fd.Body, func(n ast.Node) bool {
+			switch x := n.(type) {
+			case *ast.FuncLit:
+				x.Body.List = append([]ast.Stmt{probe(x.Body.Lbrace, "funclit", fn)}, x.Body.List...)
+			case *ast.IfStmt:
+				x.Body.List = append([]ast.Stmt{probe(x.Body.Lbrace, "if", fn)}, x.Body.List...)
+				if eb, ok := x.Else.(*ast.BlockStmt); ok {
+					eb.List = append([]ast.Stmt{probe(eb.Lbrace, "else", fn)}, eb.List...)
+				}
+			case *ast.ForStmt:
+				x.Body.List = append([]ast.Stmt{probe(x.Body.Lbrace, "for", fn)}, x.Body.List...)
+			case *ast.RangeStmt:
+				x.Body.List = append([]ast.Stmt{probe(x.Body.Lbrace, "range", fn)}, x.Body.List...)
+			case *ast.CaseClause:
+				x.Body = append([]ast.Stmt{probe(x.Colon, "case", fn)}, x.Body...)
+			case *ast.CommClause:
+				x.Body = append([]ast.Stmt{probe(x.Colon, "comm", fn)}, x.Body...)
+			}
+			return true
+		})
+	}
+	return changed
+}
 
 func main() {
 	flag.Parse()
@@ -136,6 +196,9 @@ func run() error {
 			}
 		}
 		for _, s := range srcs {
+			if *blockcov && addBlockCov(fset, s.f, s.name) {
+				addImport(s.f, "vverifsched", mod+"/internal/vsched")
+			}
 			dst := filepath.Join(*out, s.name)
 			if err := rewrite(fset, s.f, dst, mod, &inf); err != nil {
 				return fmt.Errorf("%s: %w", s.name, err)
@@ -186,6 +249,12 @@ func run() error {
 	b, _ := json.MarshalIndent(ov, "", " ")
 	if err := os.WriteFile(filepath.Join(*out, "overlay.json"), b, 0o644); err != nil {
 		return err
+	}
+	if *blockcov {
+		cb, _ := json.Marshal(covSites)
+		if err := os.WriteFile(filepath.Join(*out, "cov.json"), cb, 0o644); err != nil {
+			return err
+		}
 	}
 	ib, _ := json.MarshalIndent(inf, "", " ")
 	return os.WriteFile(filepath.Join(*out, "info.json"), ib, 0o644)
